@@ -11,11 +11,14 @@ import shutil
 OUT = "/verif/seeded"
 
 # what the checks did on FIRST contact, before any rule was strengthened in response (from my session notes)
+# round 3 (third-generation rules, 10 properties): filled in from the confirmation records (first contact = the confirmation run)
+R3_MISSED = []
 FIRST = {
     "r1": dict(caught="C01-1 C01-2 C02-1 C02-2 C03-1 C03-2 C04-1 C04-2 C05-1 C05-2 C06-1 C09-1 C10-1 C11-2 C12-1 C12-2 C14-1 C15-1 C16-1 C16-2 "
                       "C18-1 C18-2 C19-1 C20-2".split(),
                missed="C06-2 C08-1 C08-2 C09-2 C10-2 C11-1 C13-1 C13-2 C14-2 C15-2 C17-1 C17-2 C19-2 C20-1".split()),
     "r2": dict(missed="C02-1 C02-3 C03-2 C05-2 C08-1 C08-2 C08-3 C09-1 C10-2 C12-1 C12-3 C13-2 C13-3 C15-1 C15-2 C18-3 C20-1".split()),
+    "r3": dict(missed=R3_MISSED),
 }
 
 
@@ -29,7 +32,9 @@ def first_contact(rnd, pid, k):
 def main():
     os.makedirs(OUT, exist_ok=True)
     kept = skipped = 0
-    for rnd, base in (("r1", "/tmp/seed"), ("r2", "/tmp/seed2")):
+    for rnd, base in (("r1", "/tmp/seed"), ("r2", "/tmp/seed2"), ("r3", "/tmp/seed3")):
+        if not os.path.isdir(base):
+            continue
         for outdir in sorted(glob.glob(base + "/C*.out")):
             pid = os.path.basename(outdir)[:-4]
             for patch in sorted(glob.glob(outdir + "/patch_*.diff")):
